@@ -50,6 +50,7 @@ type State struct {
 	lastIter *iterInfo
 	curPoint point
 	lockEpoch *int
+	wfGuard  string
 	wfSink   *[]string // when set, type-invariant facts are collected (inside quantifier bodies) instead of asserted
 }
 
@@ -167,6 +168,12 @@ func heapSort(key string, leafSort string) string {
 }
 
 func (st *State) heapGet(key, sort string) string {
+	if st.fx.readLog != nil {
+		if _, seen := st.fx.readSeen[key]; !seen {
+			st.fx.readSeen[key] = sort
+			*st.fx.readLog = append(*st.fx.readLog, key)
+		}
+	}
 	if t, ok := st.heap[key]; ok {
 		return t
 	}
@@ -269,9 +276,7 @@ func (st *State) loadLoc(l *Loc) *Val {
 		}
 		if st.wfSink == nil && len(t) > 120 {
 			// name big terms (sharing); not under a quantifier, where the term may mention bound variables
-			n := st.fx.fresh("ld", lf.sort)
-			st.fx.sol.Assert(tEq(n, t))
-			t = n
+			t = st.fx.sol.Define("ld", t, lf.sort, st.fx.fresh)
 		}
 		xs[i] = t
 	}
@@ -287,7 +292,12 @@ func (st *State) loadLoc(l *Loc) *Val {
 			initial = false
 		}
 	}
+	if initial {
+		// only cells of objects that existed at entry (index below top0) are known to hold pre-entry references
+		st.wfGuard = tCmp("<", l.Ref, st.top0)
+	}
 	st.assumeWF(v, initial)
+	st.wfGuard = ""
 	return v
 }
 
@@ -407,7 +417,8 @@ func (st *State) assumeWF(v *Val, initial bool) {
 			sol.Assert(tCmp(">=", v.S, "0"))
 			if isRefLike(v.T) {
 				if initial {
-					sol.Assert(tCmp("<", v.S, st.top0))
+					sol.Assert(tCmp("<", v.S, st.allocTop))
+					sol.Assert(tImp(st.guardOrTrue(), tCmp("<", v.S, st.top0)))
 				} else {
 					sol.Assert(tCmp("<", v.S, st.allocTop))
 				}
@@ -416,7 +427,7 @@ func (st *State) assumeWF(v *Val, initial bool) {
 	case KSlice:
 		top := st.allocTop
 		if initial {
-			top = st.top0
+			sol.Assert(tImp(st.guardOrTrue(), tCmp("<", v.B, st.top0)))
 		}
 		sol.Assert(tAnd(tCmp(">=", v.B, "0"), tCmp("<", v.B, top), tCmp(">=", v.O, "0"), tCmp(">=", v.L, "0"), tCmp("<=", v.L, v.C),
 			tCmp("<=", tAdd(v.O, v.C), maxAlloc),
@@ -491,3 +502,10 @@ func (w wfAsserter) Assert(t string) {
 }
 
 const zeroLocks = "((as const (Array Int Int)) 0)"
+
+func (st *State) guardOrTrue() string {
+	if st.wfGuard == "" {
+		return "true"
+	}
+	return st.wfGuard
+}
